@@ -187,6 +187,14 @@ def step (st : DState) (toks : List String) : DState × String :=
         (some { ss with obs := o' }, judge o' (showCaps (capabilities ss.model)) (showCaps c))
       | none => (st, "bad-op parse-caps")
     | _ => (st, "bad-op parse-caps")
+  | ["setcaps", caps], some ss =>
+    -- the children's capabilities change; the answers judged so far were judged against the old ones
+    if !obs.isEmpty then (st, "bad-op setcaps-takes-no-observation") else
+    match parseList parseCaps caps with
+    | some caps =>
+      if caps.length != ss.obs.caps.length then (st, "bad-op caps-count") else
+      (some { model := setCaps ss.model caps, obs := { ss.obs with caps := caps, reported := [] } }, "ok")
+    | none => (st, "bad-op parse-caps")
   | ["end"], some ss =>
     if !obs.isEmpty then (st, "bad-op end-takes-no-observation") else
     -- final verdict over the whole session; the model's logs must be the observed logs
